@@ -132,7 +132,7 @@ def latOk {n} (D R : AMat Int n) (a b c d : Fin n) : Bool :=
 /-- all acceptance tests after the four nodes are fixed -/
 def accept {n} (cfg : Cfg n) (R : AMat Int n) (a b c d : Fin n) : Bool :=
   if R.get a d ≠ 0 ∨ R.get c b ≠ 0 then false else
-  (match cfg.mask with | some B => B.get a d == 0 && B.get c b == 0 | none => true) &&
+  (match cfg.mask with | some B => B.get a d == 0 && B.get c b == 0 && B.get d a == 0 && B.get b c == 0 | none => true) &&
   (match cfg.lat with | some D => latOk D R a b c d | none => true) &&
   (if cfg.conn then (if cfg.und then undConnOk R a b c d else dirConnOk R a b c d) else true)
 
@@ -224,6 +224,17 @@ def invPerm {n} (p : Fin n → Fin n) : Fin n → Fin n := fun i =>
   | some x => x
   | none => i
 
+/-- a whole latticiser call: permute the nodes by the recorded `rng.permutation(n)`, rewire, and undo the
+permutation; returns `(Rlatt, Rrp, eff, remaining draws)` -/
+def runLatt {n} (cfg : Cfg n) (R : AMat Int n) (pl : List Nat) (itr : Nat) (ds : List Nat) :
+    Except Err (AMat Int n × AMat Int n × Nat × List Nat) :=
+  match listToPerm n pl with
+  | none => .error .protocol
+  | some p =>
+    match runBudget cfg (permMat R p) itr ds with
+    | .error e => .error e
+    | .ok (Rrp, eff, rest) => .ok (permMat Rrp (invPerm p), Rrp, eff, rest)
+
 def step (line : String) : String :=
   let (op, kv) := parseLine line
   let res : Option String := do
@@ -246,15 +257,12 @@ def step (line : String) : String :=
     if lat then
       match ds.splitAt n with
       | (pl, ds) =>
-        let p ← listToPerm n pl
         let D ← (match lookup kv "D" with | some d => parseMat n d | none => some (defaultD n))
         let cfg : Cfg n := { und, conn, lat := some D, mask, src, attDen }
-        let Rp := permMat R p
-        match runBudget cfg Rp itr ds with
+        match runLatt cfg R pl itr ds with
         | .error e => some s!"error={e.str}"
-        | .ok (Rrp, eff, rest) =>
-          let q := invPerm p
-          some s!"Rlatt={showMat (permMat Rrp q)} Rrp={showMat Rrp} eff={eff} left={rest.length}"
+        | .ok (Rlatt, Rrp, eff, rest) =>
+          some s!"Rlatt={showMat Rlatt} Rrp={showMat Rrp} eff={eff} left={rest.length}"
     else
       let cfg : Cfg n := { und, conn, lat := none, mask, src, attDen }
       match runBudget cfg R itr ds with
